@@ -291,3 +291,40 @@ ben('ben-c01-guard-nested', ['C01', 'C07', 'C04'], ('task.py', "        if self.
 ben('ben-c01-deepcopy-first', ['C01'], ('task.py', "            parameters = [p for p in deepcopy(parameters) if isinstance(p, Parameter)]", "            parameters = deepcopy(parameters)\n            parameters = [p for p in parameters if isinstance(p, Parameter)]"))
 ben('ben-c01-set-value-get', ['C01', 'C09'], ('parameter.py', "        if self.name_in_config in config:\n            value = config[self.name_in_config]\n        else:\n            if self.required:\n                raise ValueError(f'Value for parameter `{self}` not found in config `{config}`')\n            value = self.default",
                                               "        if self.name_in_config not in config:\n            if self.required:\n                raise ValueError(f'Value for parameter `{self}` not found in config `{config}`')\n            value = self.default\n        else:\n            value = config[self.name_in_config]"))
+
+# ---------------------------------------------------------------------------------------------- C08
+mut('c08-prefix-alias-substring', 'C08', 'R08.4', ('chain.py', "                if _task_name != _task.fullname:", "                if _task_name not in _task.fullname:"))
+mut('c08-prefix-namespace-startswith', 'C08', 'R08.4', ('chain.py', "and not input_task_name.startswith(f'{task.get_config().namespace}::')", "and not input_task_name.startswith(task.get_config().namespace)"))
+mut('c08-no-dag-check', 'C08', 'R08.1', ('chain.py', "        if not nx.is_directed_acyclic_graph(G):\n            raise ValueError('Chain is not acyclic')", "        if not nx.is_directed_acyclic_graph(G):\n            logging.warning('Chain is not acyclic')"))
+mut('c08-testchain-no-graph', 'C08', 'R08.1', ('utils/testing.py', "        self._process_dependencies(self.tasks)\n\n        self._build_graph()\n        self._init_objects()", "        self._process_dependencies(self.tasks)\n        self.graph = None\n        self._init_objects()"))
+mut('c08-graph-only-in-parameter-mode', 'C08', 'R08.1', ('chain.py', "        else:\n            self.tasks = tasks\n\n        self._build_graph()", "            self._build_graph()\n        else:\n            self.tasks = tasks\n"))
+mut('c08-graph-before-recreate', 'C08', 'R08.1', ('chain.py', "        self._process_dependencies(tasks)\n\n        if self._parameter_mode:", "        self._process_dependencies(tasks)\n        self.tasks = tasks\n        self._build_graph()\n\n        if self._parameter_mode:"),
+    ('chain.py', "        else:\n            self.tasks = tasks\n\n        self._build_graph()\n        self._init_objects()", "        else:\n            self.tasks = tasks\n\n        self._init_objects()"))
+mut('c08-missing-required-skipped', 'C08', 'R08.2', ('chain.py', "                    if not required:\n                        input_tasks[input_task_name] = default\n                        continue\n                    raise ValueError(f'Input task `{input_task_name}` of task `{task}` not found')", "                    input_tasks[input_task_name] = default\n                    continue"))
+mut('c08-optional-edges-skipped', 'C08', 'R08.1', ('chain.py', "                if not isinstance(input_task, Task):\n                    continue\n                G.add_edge(input_task, task)", "                if not isinstance(input_task, Task) or input_task.group != task.group:\n                    continue\n                G.add_edge(input_task, task)"))
+mut('c08-register-before-exclude', 'C08', 'R08.3', ('chain.py', "[('excluded_tasks', True), ('tasks', False)]", "[('tasks', False), ('excluded_tasks', True)]"))
+mut('c08-abstract-not-filtered', 'C08', 'R08.3', ('chain.py', "                            if task_class.meta.get('abstract', False):\n                                continue\n", ""))
+mut('c08-private-tasks-skipped', 'C08', 'R08.3', ('chain.py', "                            if task_class.meta.get('abstract', False):\n                                continue\n", "                            if task_class.meta.get('abstract', False):\n                                continue\n                            if task_class.__name__.startswith('_'):\n                                continue\n"))
+mut('c08-pattern-any-namespace', 'C08', 'R08.3', ('chain.py', "                    namespace_check = current_task_namespace == task_name.split('::')[:-1] or input_task.startswith(\n                        '~~'\n                    )", "                    namespace_check = True"))
+mut('c08-pattern-match-prefix', 'C08', 'R08.3', ('chain.py', "if re.fullmatch(input_task.lstrip('~'), task_name.split('::')[-1]) and namespace_check:", "if re.match(input_task.lstrip('~'), task_name.split('::')[-1]) and namespace_check:"))
+mut('c08-resolve-guess-namespace', 'C08', 'R08.6', ('chain.py', "found_name = _find_task_full_name(input_task_name, tasks, determine_namespace=False)", "found_name = _find_task_full_name(input_task_name, tasks)"))
+mut('c08-no-namespace-qualification', 'C08', 'R08.6', ('chain.py', "                    input_task_name = (  # add current config to reference\n                        f'{task.get_config().namespace}::{input_task_name}'\n                    )", "                    pass"))
+mut('c08-new-textual-test', 'C08', 'R08.4', ('chain.py', "        if isinstance(task, Task):\n            return task\n        if task not in self:", "        if isinstance(task, Task):\n            return task\n        for full, t in self.tasks.items():\n            if full.endswith(t.slugname) and full == task:\n                return t\n        if task not in self:"))
+
+ben('ben-c08-separator-concat', ['C08', 'C10'], ('chain.py', "and not input_task_name.startswith(f'{task.get_config().namespace}::')", "and not input_task_name.startswith(task.get_config().namespace + '::')"))
+ben('ben-c08-prepare-local', ['C08', 'C04', 'C13', 'C01'], ('chain.py', "        self._build_graph()\n        self._init_objects()\n\n    def _process_config", "        self._build_graph()\n        logging.debug('graph built')\n        self._init_objects()\n\n    def _process_config"))
+
+# ---------------------------------------------------------------------------------------------- C10
+mut('c10-prefix-textual-suffix', 'C10', 'R10.1', ('task.py', "            if all(t == cand or t.endswith(f':{cand}') for t in matching_tasks):", "            if all(t.endswith(cand) for t in matching_tasks):"))
+mut('c10-first-match-wins', 'C10', 'R10.2', ('task.py', "    if len(matching_tasks) > 1:\n        raise KeyError(f'Ambiguous task name `{task_name}`. Possible matches: {matching_tasks}')\n", ""))
+mut('c10-any-instead-of-all', 'C10', 'R10.2', ('task.py', "            if all(t == cand or t.endswith(f':{cand}') for t in matching_tasks):", "            if any(t != cand and t.endswith(f':{cand}') for t in matching_tasks):"))
+mut('c10-quantifier-skips-first', 'C10', 'R10.2', ('task.py', "            if all(t == cand or t.endswith(f':{cand}') for t in matching_tasks):", "            if all(t == cand or t.endswith(f':{cand}') for t in matching_tasks[1:]):"))
+mut('c10-missing-returns-none', 'C10', 'R10.2', ('task.py', "    if len(matching_tasks) == 0:\n        raise KeyError(f'Task `{task_name}` not found')\n    return matching_tasks[0]", "    if len(matching_tasks) == 0:\n        return None\n    return matching_tasks[0]"))
+mut('c10-chain-get-plain', 'C10', 'R10.3', ('chain.py', "        return self.tasks.get(_find_task_full_name(item, self.tasks.keys()))", "        return self.tasks.get(item)"))
+mut('c10-inputs-contains-plain', 'C10', 'R10.3', ('task.py', "        try:\n            return super().__contains__(_find_task_full_name(item, self.keys()))\n        except KeyError:\n            return False", "        return super().__contains__(item)"))
+mut('c10-contains-hides-all-errors', 'C10', 'R10.3', ('chain.py', "            return _find_task_full_name(item, self.tasks.keys()) in self.tasks\n        except KeyError:\n            return False", "            return _find_task_full_name(item, self.tasks.keys()) in self.tasks\n        except Exception:\n            return False"))
+mut('c10-getattr-exact', 'C10', 'R10.3', ('chain.py', "        if item in self:\n            return self.get(item)\n        return self.__getattribute__(item)", "        if item in self.tasks:\n            return self.tasks[item]\n        return self.__getattribute__(item)"))
+mut('c10-single-match-shortcut', 'C10', 'R10.2', ('task.py', "    matching_tasks = [t for t in tasks if _task_name_match(task_name, t)]\n", "    matching_tasks = [t for t in tasks if _task_name_match(task_name, t)]\n    if matching_tasks and matching_tasks[0].split('::')[-1] == task_name:\n        return matching_tasks[0]\n"))
+
+ben('ben-c10-len-eq-one', ['C10'], ('task.py', "    if len(matching_tasks) == 0:\n        raise KeyError(f'Task `{task_name}` not found')\n    return matching_tasks[0]", "    if len(matching_tasks) == 0:\n        raise KeyError(f'Task `{task_name}` not found')\n    (only_match,) = matching_tasks\n    return only_match"))
+ben('ben-c10-candidate-separator', ['C10', 'C08'], ('task.py', "            if all(t == cand or t.endswith(f':{cand}') for t in matching_tasks):", "            if all(t == cand or t.endswith(':' + cand) for t in matching_tasks):"))
